@@ -445,6 +445,11 @@ def run_check(pid, tier, seed):
         violations.append((path, ''))
 
     corr_broken = bool(diffs) or (exe is None and getattr(plugin, 'EXTRACT', None) is not None)
+    if exe is not None and cases and n_modelled == 0:
+        # a driver exists but no case went through it: the correspondence did not run (plugin lost its encode?)
+        corr_broken = True
+        exerr = 'no generated case was run through the model driver (encode missing or returning None for every case)'
+        log('correspondence:', exerr)
     if diffs:
         for i in diffs[:5]:
             log('correspondence: model and implementation differ: case=%s impl=%r model=%r' % (short(cases[i]), impl_out[i][:200], (model_out[i] or '')[:200]))
